@@ -1,5 +1,5 @@
 // Driver (harness code): enumerates the bounded domain on the JVM and prints one JSON line per case.
-//   args: tables <maxCell> [aLo aHi] | hwe <maxCount> | cases   (cases: lines "t a b c d m..." / "g r h v" on stdin)
+//   args: tables <maxCell> [aLo aHi] | hwe <maxCount> | cases   (cases: lines "t a b c d m..." / "x a b c d m..." (no Fisher) / "g r h v" on stdin)
 package vfdriver
 
 import is.hail.stats._
@@ -17,10 +17,10 @@ object C37Main {
         "{\"err\":\"" + e.getClass.getSimpleName + ": " + m + "\"}"
     }
 
-  def table(out: java.io.PrintStream, a: Int, b: Int, c: Int, d: Int, ms: Seq[Int]): Unit = {
+  def table(out: java.io.PrintStream, a: Int, b: Int, c: Int, d: Int, ms: Seq[Int], fisher: Boolean = true): Unit = {
     val sb = new java.lang.StringBuilder(256)
     sb.append("{\"t\":[").append(a).append(',').append(b).append(',').append(c).append(',').append(d).append("],\"f\":")
-    sb.append(arr(fisherExactTest(a, b, c, d)))
+    sb.append(if (fisher) arr(fisherExactTest(a, b, c, d)) else "null")
     ChiSquare.lastX = Double.NaN
     val n0 = ChiSquare.calls
     sb.append(",\"c\":").append(arr(chiSquaredTest(a, b, c, d)))
@@ -71,6 +71,7 @@ object C37Main {
         while (line != null) {
           val p = line.trim.split("\\s+")
           if (p(0) == "t") table(out, p(1).toInt, p(2).toInt, p(3).toInt, p(4).toInt, p.drop(5).map(_.toInt).toSeq)
+          else if (p(0) == "x") table(out, p(1).toInt, p(2).toInt, p(3).toInt, p(4).toInt, p.drop(5).map(_.toInt).toSeq, fisher = false)
           else if (p(0) == "g") hwe(out, p(1).toInt, p(2).toInt, p(3).toInt)
           line = in.readLine()
         }
